@@ -328,6 +328,9 @@ cpdef read_enum(fo, writer_schema, reader_schema):
     symbol in the schema.
     """
     index = read_long(fo)
+    if index < 0:
+        # A negative index would silently count from the end of the list
+        raise IndexError(f"enum index {index} out of range")
     symbol = writer_schema["symbols"][index]
     if reader_schema and symbol not in reader_schema["symbols"]:
         default = reader_schema.get("default")
@@ -524,6 +527,9 @@ cpdef read_union(
     """
     # schema resolution
     index = read_long(fo)
+    if index < 0:
+        # A negative index would silently count from the end of the list
+        raise IndexError(f"union index {index} out of range")
     idx_schema = writer_schema[index]
     idx_reader_schema = None
 
@@ -604,6 +610,9 @@ cpdef skip_union(fo, writer_schema, named_schemas):
     """
     # schema resolution
     index = read_long(fo)
+    if index < 0:
+        # A negative index would silently count from the end of the list
+        raise IndexError(f"union index {index} out of range")
     _skip_data(fo, writer_schema[index], named_schemas)
 
 
